@@ -71,6 +71,7 @@ pub fn profile(prop: &str, tier: &str) -> Profile {
         mix_flavours: false,
         prober_ops: 4,
         prober_weights: w(PROBER),
+        script_bias: 0,
     };
     match prop {
         "C01" => Profile { name: "C01", ..base },
@@ -305,6 +306,7 @@ pub fn profile(prop: &str, tier: &str) -> Profile {
             ]),
             pays: droppable(),
             max_sched: 128,
+            script_bias: 1,
             ..base
         },
         "C16" => Profile {
@@ -322,6 +324,7 @@ pub fn profile(prop: &str, tier: &str) -> Profile {
                 (K::Yield, 3),
             ]),
             pays: vec![Pay::P1, Pay::P4, Pay::P8, Pay::P16, Pay::P40, Pay::PR],
+            script_bias: 2,
             ..base
         },
         "C19" => Profile {
